@@ -62,7 +62,7 @@ func (c10) Describe() sim.Description {
 		RealCode:    []string{"runtime.go", "builder.go", "internal/wasm store.go / store_module_list.go / module_instance.go", "both engines' compiled-module tables (lock-level yields)", "experimental.CloseNotifier"},
 		Stubs:       []string{"sync, sync/atomic as seen by the listed files = scheduler-aware shims in the instrumented scratch copy (forwarding to the real primitives outside the simulation)"},
 		Assumptions: []string{"interleavings are decided at the inserted yield points, not inside un-instrumented code", "porcupine timeout 30 s; Unknown is reported as harness trouble, never as a violation"},
-		FaultKinds:  []string{"adversarial schedules (uniform, PCT d=1..3)", "runtime close racing with every other operation"},
+		FaultKinds:  []string{"adversarial schedules (uniform, PCT d=1..3)", "runtime close racing with every other operation", "context cancellation / close from another goroutine under a running call", "failed importer of a shared custom-allocator memory", "file Close errors while an instance is closed", "listener compilation racing compile/instantiate/close"},
 	}
 }
 
